@@ -273,6 +273,10 @@ def main(argv=None):
             harness_errors.append("determinism self-test: %s" % st)
             print("HARNESS_ERROR determinism self-test mismatch: %s" % st)
 
+    if rep.n and not rep.nontrivial:
+        # every run was vacuous (e.g. the golden run of C10 never succeeds, or every configuration left the domain):
+        # the check explored nothing and must not report success
+        harness_errors.append("no run was non-trivial: the check explored nothing (%d runs)" % rep.n)
     zero_probes = [p for p in getattr(engine, "PROBES", []) if not rep.probes.get(p)]
     zero_faults = [p for p in getattr(engine, "FAULT_KINDS", []) if not rep.faults.get(p)]
     if zero_probes:
